@@ -41,6 +41,13 @@ def digest_one(i, extra):
         h = c20.run_sequence(c20.gen_sequence(seed, kind), seed)
         return [i, common.sha([h.probes, [f["detail"] for f in h.findings], h.server.stats,
                                sorted(h.server.data.keys()), h.sim.disk.files]), len(h.findings)]
+    if i % 6 == 0:
+        # the crash / restart / prefetched-unhandled faults: a multi-crash case of the C04 harness
+        from checks import c04
+        case, cseed = c04.multi_case(i, "quick")
+        if case is not None:
+            res, state, mon = c04.run_multi_case(case, cseed)
+            return [i, res.sim.hexdigest(), res.sim.steps, state["crashes"], res.sim.stats.get("prefetched-unhandled", 0)]
     res = run_scenario(scn, seed)
     return [i, res.sim.hexdigest(), res.sim.steps]
 
